@@ -67,10 +67,51 @@ theorem matchesExecL_std (env : PEnv) (ml : MatchList) : ∀ st, matchesExecL st
 theorem messageParsePL_std (d : Handle) (dir name content : Bytes) :
     messageParsePL stdLimits d dir name content = messageParseP d dir name content := rfl
 
+theorem evalTL_std (env : Env) (root : Msg) (e : Expr) : ∀ (part : Nat) (m : Msg) (st : St),
+    evalTL stdLimits env root e part m st = evalT env root e part m st := by
+  induction e with
+  | block lno e ih => intro part m st; simp only [evalTL, evalT, ih] <;> rfl
+  | and lno l r ihl ihr => intro part m st; simp only [evalTL, evalT, ihl, ihr] <;> rfl
+  | or lno l r ihl ihr => intro part m st; simp only [evalTL, evalT, ihl, ihr] <;> rfl
+  | neg lno e ih => intro part m st; simp only [evalTL, evalT, ih] <;> rfl
+  | mtch lno c rhs ihc ihr => intro part m st; simp only [evalTL, evalT, ihc, ihr, matchesAppendL_std] <;> rfl
+  | attachment lno e ih =>
+    intro part m st
+    have hloop : ∀ (ps : List Msg) (i : Nat) (st : St),
+        evalTL.loop stdLimits env root e part ps i st = evalT.loop env root e part ps i st := by
+      intro ps
+      induction ps with
+      | nil => intro i st; simp only [evalTL.loop, evalT.loop]
+      | cons p rest ihp => intro i st; simp only [evalTL.loop, evalT.loop, ih, ihp] <;> rfl
+    simp only [evalTL, evalT, hloop] <;> rfl
+  | attBlock lno blk ih =>
+    intro part m st
+    have hloop : ∀ (ps : List Msg) (i : Nat) (ev : Tri) (st : St),
+        evalTL.loopB stdLimits env root blk part ps i ev st = evalT.loopB env root blk part ps i ev st := by
+      intro ps
+      induction ps with
+      | nil => intro i ev st; simp only [evalTL.loopB, evalT.loopB]
+      | cons p rest ihp => intro i ev st; simp only [evalTL.loopB, evalT.loopB, ih, ihp] <;> rfl
+    simp only [evalTL, evalT, hloop] <;> rfl
+  | date lno field cmp age =>
+    intro part m st
+    cases field <;> simp only [evalTL, evalT, evalL_std, exprRegexecL_std] <;> rfl
+  | stat lno path =>
+    intro part m st
+    simp only [evalTL, evalT, matchesAppendL_std, std_pathMax, strlcpyL_fin] <;> rfl
+  | command lno argv =>
+    intro part m st
+    simp only [evalTL, evalT, matchesAppendL_std] <;> rfl
+  | _ => intro part m st; simp only [evalTL, evalT, evalL_std]
+
+theorem evalPL_std (env : Env) (e : Expr) (m : Msg) (fl : MFlags) : evalPL stdLimits env e m fl = evalP env e m fl := by
+  unfold evalPL evalP evalTop
+  rw [evalTL_std]
+
 theorem processMessageL_std (env : PEnv) (orc : EvalOracles) (expr : Expr) (md : Maildir) (name : Bytes) (st : MainSt) :
     processMessageL stdLimits env orc expr md name st = processMessage env orc expr md name st := by
   unfold processMessageL processMessage
-  simp only [messageParsePL_std, evalL_std, matchesInterpolateL_std, matchesExecL_std]
+  simp only [messageParsePL_std, evalPL_std, matchesInterpolateL_std, matchesExecL_std]
   rfl
 
 theorem walkL_std (env : PEnv) (orc : EvalOracles) (expr : Expr) (fuel : Nat) :
